@@ -709,6 +709,37 @@ def has_not_all_pieces(fx, body, s):
     return False
 
 
+def ctor_sites(fx):
+    """Every Move::{capture,quiet,capture_promotion,quiet_promotion} call in movegen::gen as
+    (site_body, bb, term, ctor, ctx_body, src_expr, dst_expr). When the call sits in a helper whose source / destination
+    is simply a parameter, the expressions are taken from each in-module caller (one level), with ctx_body that caller."""
+    out = []
+    for b in fx.fn_bodies():
+        if not norm(b.name).startswith("chess::movegen::gen::") or "::tests::" in b.name:
+            continue
+        for bb, t in b.calls():
+            cn = norm(callee_name(t) or "")
+            if not cn.startswith("chess::moves::Move::"):
+                continue
+            ctor = cn.split("::")[-1]
+            if ctor not in ("capture", "quiet", "capture_promotion", "quiet_promotion"):
+                continue
+            src = b.expr(t["args"][0], expand_named=True, at=bb)
+            dst = b.expr(t["args"][1], expand_named=True, at=bb)
+            ps, pd = deep_strip(src), deep_strip(dst)
+            is_param = lambda e: isinstance(e, tuple) and len(e) >= 2 and e[0] == "arg" and isinstance(e[1], int)
+            if is_param(ps) and is_param(pd):  # both come from the caller: analyse them in the caller's context
+                callers = [(cb, cbb, ct) for (cb, cbb, ct) in fx.callers_of(lambda nm: nm == norm(b.name))
+                           if norm(cb.name).startswith("chess::movegen::gen::") and "::tests::" not in cb.name]
+                for cb, cbb, ct in callers:
+                    s2 = cb.expr(ct["args"][ps[1] - 1], expand_named=True, at=cbb)
+                    d2 = cb.expr(ct["args"][pd[1] - 1], expand_named=True, at=cbb)
+                    out.append((b, bb, t, ctor, cb, s2, d2))
+                continue
+            out.append((b, bb, t, ctor, b, src, dst))
+    return out
+
+
 def rule_label(fx, rep):
     ok = True
     n = 0
@@ -720,21 +751,13 @@ def rule_label(fx, rep):
 
     promo = {"capture_promotion": [], "quiet_promotion": []}
     seen = {}
-    for b in fx.fn_bodies():
-        if not norm(b.name).startswith("chess::movegen::gen::") or "::tests::" in b.name:
-            continue
-        for bb, t in b.calls():
-            cn = norm(callee_name(t) or "")
-            if not cn.startswith("chess::moves::Move::"):
-                continue
-            ctor = cn.split("::")[-1]
-            if ctor not in ("capture", "quiet", "capture_promotion", "quiet_promotion"):
-                continue
+    counted = set()
+    if True:
+        for site_b, bb, t, ctor, b, src, dst in ctor_sites(fx):
             n += 1
-            src = b.expr(t["args"][0], expand_named=True, at=bb)
-            dst = b.expr(t["args"][1], expand_named=True, at=bb)
-            if ctor.endswith("promotion"):
-                promo[ctor].append((norm(b.name), enum_name_of(b.expr(t["args"][2], expand_named=True, at=bb)), t.get("line")))
+            if ctor.endswith("promotion") and (site_b.name, bb) not in counted:
+                counted.add((site_b.name, bb))
+                promo[ctor].append((norm(site_b.name), enum_name_of(site_b.expr(t["args"][2], expand_named=True, at=bb)), t.get("line")))
             dset = iter_source(dst)
             good, why = False, ""
             if ctor in ("capture", "capture_promotion"):
@@ -763,10 +786,10 @@ def rule_label(fx, rep):
                     else:
                         why = "its destination is not drawn from a set of empty squares"
             rep.obligation(good)
-            k = f"{norm(b.name).split('::')[-1]}/{ctor}"
+            k = f"{norm(site_b.name).split('::')[-1]}/{ctor}"
             seen[k] = seen.get(k, 0) + 1
             if not good:
-                bad(k + (f"/{seen[k]}" if seen[k] > 1 else ""), f"`{b.name}` line {t.get('line')} builds Move::{ctor} but {why}: a move would carry the wrong capture/quiet label (make_move and move ordering trust it)", b, t.get("line"))
+                bad(k + (f"/{seen[k]}" if seen[k] > 1 else ""), f"`{site_b.name}` line {t.get('line')} builds Move::{ctor} but {why}: a move would carry the wrong capture/quiet label (make_move and move ordering trust it)", site_b, t.get("line"))
     rep.rule("C01-LABEL", n, 19, ok, "capture/quiet labels match the occupancy of the destination set")
     rule_promorank(fx, rep)
     # promotions: each of the four kinds exactly once per kind of promotion
@@ -818,17 +841,8 @@ def rule_promorank(fx, rep):
     ok = True
     n = 0
     seen = {}
-    for b in fx.fn_bodies():
-        if not norm(b.name).startswith("chess::movegen::gen::") or "::tests::" in b.name:
-            continue
-        for bb, t in b.calls():
-            cn = norm(callee_name(t) or "")
-            if not cn.startswith("chess::moves::Move::"):
-                continue
-            ctor = cn.split("::")[-1]
-            if ctor not in ("capture", "quiet", "capture_promotion", "quiet_promotion"):
-                continue
-            src = b.expr(t["args"][0], expand_named=True, at=bb)
+    if True:
+        for site_b, bb, t, ctor, b, src, dst in ctor_sites(fx):
             sset = iter_source(src)
             if sset is None:
                 continue
@@ -844,12 +858,12 @@ def rule_promorank(fx, rep):
                 good = "!promo" in kinds or "start" in kinds
                 why = "its source pawns are not kept off the pre-promotion rank: a pawn reaching the last rank would be listed without promoting"
             rep.obligation(good)
-            k = f"{norm(b.name).split('::')[-1]}/{ctor}"
+            k = f"{norm(site_b.name).split('::')[-1]}/{ctor}"
             seen[k] = seen.get(k, 0) + 1
             if not good:
                 ok = False
                 rep.violation("C01-PROMORANK", f"C01-PROMORANK/{k}" + (f"/{seen[k]}" if seen[k] > 1 else ""),
-                              f"`{b.name}` line {t.get('line')} builds a pawn Move::{ctor} but {why}", {"fn": b.name, "file": b.file, "line": t.get("line")})
+                              f"`{site_b.name}` line {t.get('line')} builds a pawn Move::{ctor} but {why}", {"fn": site_b.name, "file": site_b.file, "line": t.get("line")})
     rep.rule("C01-PROMORANK", n, 11, ok, "pawn moves split by the promotion-rank mask")
 
 
